@@ -959,6 +959,36 @@ pub fn run_c16(rep: &mut Report, thorough: bool) {
             cuts_stage(rep, &env, &format!("rpc-cuts-{}", tag), &pls, 12);
         }
         crate::props::pairs::pair_histories(rep, &env.cfg, &format!("rpc-pair-histories-{}", tag), &crate::props::pairs::datagram_variants("rpc", &[apprpc::build_call(0x61626364, 2, 100000, 2, 3, &[], &[]), apprpc::build_call(0x61626364, 2, 100000, 4, 4, &[1, 2, 3, 4], &[]), apprpc::build_call(0x01020304, 2, 100003, 3, 0, &[], &[])]));
+        // multi-fragment records (RFC 5531 record marking): the call split into two fragments at every
+        // offset, and into three at a grid of offsets; each stream sent whole, cut at the fragment
+        // boundary, and cut inside the second fragment header
+        {
+            let bodies: Vec<Vec<u8>> = vec![apprpc::build_call(0x61626364, 2, 100000, 2, 3, &[], &[]), apprpc::build_call(0x61626364, 2, 100000, 4, 4, &[1, 2, 3, 4, 5, 6, 7, 8], &[]), apprpc::build_call(0x01020304, 2, 100003, 3, 0, &[], &[])];
+            let mut plan: Vec<(usize, Vec<usize>)> = Vec::new();
+            for (bi, b) in bodies.iter().enumerate() {
+                for a in 1..b.len() {
+                    plan.push((bi, vec![a]));
+                }
+                for a in (4..b.len()).step_by(8) {
+                    for c in ((a + 4)..b.len()).step_by(12) {
+                        plan.push((bi, vec![a, c]));
+                    }
+                }
+            }
+            let np = plan.len() as u64;
+            sweep_conv(rep, &env, &format!("rpc-fragments-{}", tag), "3 calls split into 2 record fragments at every offset and into 3 at a grid of offsets x {one segment, TCP cut at the first fragment boundary, TCP cut inside the second fragment header} x {v4,v6}", np * 3 * 2, |i| {
+                let d = unrank(i, &[np, 3, 2]);
+                let (bi, cuts) = &plan[d[0] as usize];
+                let s = apprpc::with_fragments(&bodies[*bi], cuts);
+                let b1 = 4 + cuts[0];
+                let segs = match d[1] {
+                    0 => vec![s.clone()],
+                    1 => vec![s[..b1].to_vec(), s[b1..].to_vec()],
+                    _ => vec![s[..b1 + 2].to_vec(), s[b1 + 2..].to_vec()],
+                };
+                (Path { tcp: true, v6: d[2] == 1, ports: d[2] as usize }, segs)
+            });
+        }
         // XID bytes
         let dims = [4u64, 4, 256];
         sweep_app(rep, &env, &format!("rpc-xid-{}", tag), "XID: every byte position x 256 values x 4 paths (GETPORT v2)", product(&dims), |i| {
@@ -1247,6 +1277,16 @@ pub fn run_c17(rep: &mut Report, thorough: bool) {
             g[(i / 256) as usize] = i as u8;
             (pu, appsmb::smb2_negotiate(&Smb2Hdr::new(0), &[0x0302], &g))
         });
+        // every revision word as the only dialect, after a supported one and before one
+        sweep_app(rep, &env, &format!("smb2-dialect-words-{}", tag), "dialect revision 0..65535 offered alone, after 0x0202 and before 0x0311", 65536 * 3, |i| {
+            let r = (i % 65536) as u16;
+            let l: Vec<u16> = match i / 65536 {
+                0 => vec![r],
+                1 => vec![0x0202, r],
+                _ => vec![r, 0x0311],
+            };
+            (pu, appsmb::smb2_negotiate(&Smb2Hdr::new(0), &l, &[5; 16]))
+        });
         // conversations on one TCP connection: negotiate, then session setup (and variants of the
         // second message: reply flag, other commands, the other SMB generation's magic)
         {
@@ -1398,16 +1438,6 @@ pub fn run_c17(rep: &mut Report, thorough: bool) {
             sweep_app(rep, &env, &format!("smb2-dialects-5-{}", tag), "all sequences of length 1..5 over 7 revisions (19607) x {UDP, TCP}", s2l.len() as u64 * 2, |i| {
                 let l: Vec<u16> = s2l[(i / 2) as usize].iter().map(|k| d2[*k]).collect();
                 (two[(i % 2) as usize], appsmb::smb2_negotiate(&Smb2Hdr::new(0), &l, &[5; 16]))
-            });
-            // every revision word as the only / the second dialect
-            sweep_app(rep, &env, &format!("smb2-dialect-words-{}", tag), "dialect revision 0..65535 offered alone, after 0x0202 and before 0x0311", 65536 * 3, |i| {
-                let r = (i % 65536) as u16;
-                let l: Vec<u16> = match i / 65536 {
-                    0 => vec![r],
-                    1 => vec![0x0202, r],
-                    _ => vec![r, 0x0311],
-                };
-                (pu, appsmb::smb2_negotiate(&Smb2Hdr::new(0), &l, &[5; 16]))
             });
         }
     }
